@@ -13,6 +13,10 @@ pub fn stress_case(case: &Value, dispatch: Dispatch, r: &mut Report) {
     let rounds = case["rounds"].as_u64().unwrap_or(2) as usize;
     let items: Arc<Vec<Value>> = Arc::new(case["items"].as_array().unwrap().clone());
     let graph: Arc<Option<Value>> = Arc::new(case.get("graph").cloned().filter(|g| g.is_object()));
+    let mut tracefile = crate::trace::TraceFile::open(case);
+    if let Some(t) = &tracefile {
+        t.start();
+    }
     let barrier = Arc::new(Barrier::new(threads));
     let bad: Arc<Mutex<Vec<Value>>> = Arc::new(Mutex::new(Vec::new()));
     let calls = Arc::new(std::sync::atomic::AtomicU64::new(0));
@@ -63,6 +67,12 @@ pub fn stress_case(case: &Value, dispatch: Dispatch, r: &mut Report) {
         if h.join().is_err() {
             panicked += 1;
         }
+    }
+    if let Some(t) = tracefile.as_mut() {
+        let evs = t.stop();
+        crate::trace::call_events(t, &evs);
+        t.flush();
+        *r.counts.entry("traced_events".into()).or_insert(0) += t.events;
     }
     *r.counts.entry("stress_calls".into()).or_insert(0) += calls.load(std::sync::atomic::Ordering::Relaxed);
     r.count("stress_trial");
